@@ -1,5 +1,6 @@
 PROP = {
-    "groups": ["progress", "progress-session", "progress-session-e2e", "progress-files", "e2e-tmux-pane"],
+    "shared_groups": "also runs the neighbouring groups whose code can break this property: relayneg (described under C14)",
+    "groups": ["progress", "progress-session", "progress-session-e2e", "progress-files", "e2e-tmux-pane", "relayneg"],
     "rule": "real textProgressBar (export_verif_progress.go, clock pinned) vs extracted model, under the library's real RuneWidth/StringWidth "
             "values passed per case: getEllipsisString (corpus x maxima, random names), getProgressBar (lengths around the minimum, steps "
             "inside/at ties/beyond the size/negative, sizes to 2^62), getProgressText at every width 1..500 (+ -7, 0, 600, 1000, 5000) x names "
